@@ -535,7 +535,16 @@ def coerce(v, ty, base=None, idx=()):
         if isinstance(v, (list, tuple)):
             v = VList.from_py(list(v))
         if isinstance(v, VList):
+            if v.conc is not None and len(v.conc) == 0 and isinstance(ty.elem, (TInt, TRef, TBool, TStr)) and not idx:
+                # empty list of a first-order element type: array-backed, so that append is a Store
+                arr = z3.Const(fresh_name(base + "_arr"), z3.ArraySort(IntS, sort_of(ty.elem)))
+                return VList(0, arr=arr, wrap=wrap_of(ty.elem), et=ty.elem)
             return VList(v.n, get=lambda i, v=v: coerce(v.get(i), ty.elem, base + "_e", tuple(idx) + (i,)), et=ty.elem)
+    if isinstance(ty, TOpt):
+        if v is VNone or v is None:
+            return VOpt(z3.BoolVal(True), fresh(ty.inner, base + "_none"))
+        if not isinstance(v, VOpt):
+            return VOpt(z3.BoolVal(False), lift(v))
     return v
 
 
@@ -689,5 +698,8 @@ def qforall(vs, body, pats=()):
             continue
         good.append(z3.MultiPattern(*terms) if len(terms) > 1 else terms[0])
     if good:
-        return z3.ForAll(vs, body, patterns=good)
+        try:
+            return z3.ForAll(vs, body, patterns=good)
+        except z3.Z3Exception:
+            pass       # e.g. a pattern over a Store term: let the solver choose
     return z3.ForAll(vs, body)
